@@ -593,7 +593,7 @@ impl PageLoader {
         let bucket = loop {
             match load.probe_sequence.next(&self.meta_map) {
                 ProbeResult::Tombstone(_) => continue,
-                ProbeResult::Empty(_) => return false,
+                ProbeResult::Empty(_) | ProbeResult::Exhausted => return false,
                 ProbeResult::PossibleHit(bucket) => break BucketIndex(bucket),
             }
         };
@@ -688,6 +688,7 @@ fn allocate_bucket(
             return None;
         }
         match probe_seq.next(&meta_map) {
+            ProbeResult::Exhausted => return None,
             ProbeResult::PossibleHit(_) => continue,
             ProbeResult::Tombstone(bucket) | ProbeResult::Empty(bucket) => {
                 meta_map.set_full(bucket as usize, probe_seq.hash);
@@ -718,6 +719,8 @@ enum ProbeResult {
     PossibleHit(u64),
     Empty(u64),
     Tombstone(u64),
+    /// The whole probe cycle was walked without finding an empty bucket: the table is full.
+    Exhausted,
 }
 
 impl ProbeSequence {
@@ -733,6 +736,12 @@ impl ProbeSequence {
     // probe until there is a possible hit or an empty bucket is found
     fn next(&mut self, meta_map: &MetaMap) -> ProbeResult {
         loop {
+            // The triangular probe sequence is periodic with a period of at most twice the
+            // number of buckets. Past that, every reachable bucket has been visited.
+            if self.step > 2 * meta_map.len() as u64 {
+                return ProbeResult::Exhausted;
+            }
+
             // Triangular probing
             self.bucket += self.step;
             self.step += 1;
